@@ -9,7 +9,7 @@ import concurrent.futures, json, os, re, shutil, subprocess, sys, tempfile
 ROOT = os.path.dirname(os.path.dirname(os.path.abspath(__file__)))
 SEEDED = os.path.join(ROOT, "seeded")
 # checks run in addition to the change's own property (where the deviation surfaces in a neighbouring property's oracle)
-EXTRA = {"C07-m1": ["C01"], "C07-m2": ["C01"], "C08-m2": ["C03"], "C05-m3": ["C11"], "C04-m3": ["C11"], "C07-m3": ["C01"]}
+EXTRA = {"C11-m4": ["C10"], "C07-m1": ["C01"], "C07-m2": ["C01"], "C08-m2": ["C03"], "C05-m3": ["C11"], "C04-m3": ["C11"], "C07-m3": ["C01"]}
 SCRATCH = os.environ.get("MATRIX_SCRATCH", "/tmp/mx%d" % os.getpid())
 
 
